@@ -165,6 +165,9 @@ func (s *Seq) smallLayout0(ctx string) {
 	if s.small == nil || !s.quiescent {
 		return
 	}
+	if s.Cfg.Async || s.smallAsync {
+		s.W.Settle()
+	}
 	name := "shapes.Small"
 	if s.Cfg.Lower {
 		name = snake(name)
